@@ -48,11 +48,11 @@ func vxCancel(sql string, tab *VxTable, maxK int) {
 
 const vxNested = "WITH c AS ( SELECT a FROM t WHERE a IN ( 1 , 2 ) ) SELECT CASE WHEN a > 1 THEN f ( a , g ( b ) ) ELSE 2 END FROM c JOIN u ON c . a = u . a WHERE a BETWEEN 1 AND 2 UNION SELECT b FROM v WHERE EXISTS ( SELECT 1 FROM w )"
 
-func VxC11_Nested()  { vxCancel(vxNested, nil, 0) }
+func VxC11_Nested() { vxCancel(vxNested, nil, 0) }
 func VxC11_Returning() {
 	vxCancel("INSERT INTO t ( a ) VALUES ( 1 ) RETURNING f ( a , b ) , a + 1", nil, 0)
 }
-func VxC11_Where2() { vxCancel("SELECT a FROM t WHERE", VxExprTable, 2) }
-func VxC11_Where3() { vxCancel("SELECT a FROM t WHERE", VxExprTable, 3) }
+func VxC11_Where2()  { vxCancel("SELECT a FROM t WHERE", VxExprTable, 2) }
+func VxC11_Where3()  { vxCancel("SELECT a FROM t WHERE", VxExprTable, 3) }
 func VxC11_Select2() { vxCancel("SELECT", VxExprTable, 2) }
 func VxC11_Select3() { vxCancel("SELECT", VxExprTable, 3) }
